@@ -338,7 +338,7 @@ type GenOpts struct {
 
 var allP1 = []string{"greedy", "dfs"}
 var allP2 = []string{"ns", "lp"}
-var sizeAwareP4 = []string{"sink", "valign", "packright"}
+var sizeAwareP4 = []string{"sink", "valign", "packright", "ns"}
 var basicP5 = []string{"polyline", "straight", "ortho"}
 
 func dyadic(r *Rng, max int) float64 {
